@@ -253,7 +253,7 @@ func (g *G) planBody(b *schema.BodySchema, depth int, parentAddr string) *BodyPl
 			for i := 0; i < n; i++ {
 				bp.Items = append(bp.Items, &Item{Block: g.planBlock(bt, bs, depth-1)})
 			}
-			if ext != nil && ext.DynamicBlocks && bs.Body != nil && !tight && g.coin(0.25) {
+			if ext != nil && ext.DynamicBlocks && bs.Body != nil && !tight && !g.O.Simple && g.coin(0.25) {
 				blk := g.planBlock(bt, bs, depth-1)
 				blk.Dynamic = true
 				bp.Items = append(bp.Items, &Item{Block: blk})
@@ -264,7 +264,7 @@ func (g *G) planBody(b *schema.BodySchema, depth int, parentAddr string) *BodyPl
 			bp.Injected = append(bp.Injected, "unexpected-block:unknown_block")
 		}
 	}
-	if g.coin(0.2) {
+	if g.coin(0.2) && !g.O.Simple {
 		c := "# a comment"
 		if g.O.Unicode {
 			c = "# комментарий — ✓ { = ( \" ${"
@@ -362,6 +362,14 @@ func (g *G) planBlock(bt string, bs *schema.BlockSchema, depth int) *BlockPlan {
 		}
 		if key != nil && key.L2Name != "" {
 			g.pinAttr(blk.Body, key.L2Name, key.L2Kind, key.L2Val, dep.Attributes[key.L2Name])
+		} else if dep != nil {
+			// only the first level is selected: its own key attributes must not
+			// accidentally select a second-level body
+			for _, an := range sortedAttrNames(dep.Attributes) {
+				if dep.Attributes[an].IsDepKey {
+					blk.Body.remove(an)
+				}
+			}
 		}
 	}
 	// address + declarations
@@ -451,15 +459,15 @@ func (bp *BodyPlan) find(name string) *AttrPlan {
 func (g *G) pinAttr(bp *BodyPlan, name string, kind, want int, as *schema.AttributeSchema) {
 	bp.remove(name)
 	if want < 0 {
-		if g.coin(0.8) {
+		if g.coin(0.8) || g.O.NoOddities {
 			return // absent (default value may apply)
 		}
 		want = 5 + g.pick(3) // a value no key uses
 	}
-	txt, _ := DepVal(kind, want)
+	txt, ev := DepVal(kind, want)
 	e := raw(txt)
-	if kind == 0 {
-		e = lit(cty.StringVal(strings.Trim(txt, `"`)))
+	if kind <= 2 {
+		e = lit(ev.Static)
 	}
 	bp.Items = append([]*Item{{Attr: &AttrPlan{Name: name, Schema: as, Expr: e, Fixed: true}}}, bp.Items...)
 }
